@@ -207,6 +207,9 @@ class ThreadedIter : public DataIter<DType> {
   virtual void BeforeFirst(void) override {
     ThrowExceptionIfSet();
     std::unique_lock<std::mutex> lock(mutex_);
+    // the producer may have failed and exited since the check above: look again now that
+    // it can no longer pass its catch block unnoticed, otherwise nobody would answer the request
+    ThrowExceptionIfSet();
     if (out_data_ != NULL) {
       free_cells_.push(out_data_);
       out_data_ = NULL;
